@@ -7,6 +7,7 @@ import (
 	"sync/atomic"
 
 	"verifmc/drive"
+	"verifmc/ref"
 	"verifmc/rep"
 	"verifmc/term"
 )
@@ -275,6 +276,25 @@ func c16(r *rep.Run) {
 			}
 		}
 	}
+	// operands containing a division or modulo (by a variable, by a constant, by zero)
+	{
+		v := func(ty term.Ty) *term.Term {
+			if ty == B {
+				return term.Var("b", B)
+			}
+			return term.Var("n", I)
+		}
+		for _, dv := range []string{"/", "%"} {
+			for _, divisor := range []*term.Term{v(I), term.Const(3), term.Const(0)} {
+				g := term.Op("=", B, term.Op(dv, I, term.Const(10), divisor), term.Const(2))
+				progs = append(progs,
+					MkProg(term.Op("and", B, v(B), g.Clone(), v(B))),
+					MkProg(term.Op("or", B, g.Clone(), v(B), term.Op("<", B, v(I), v(I)))),
+					MkProg(term.Op("and", B, v(B), v(B), term.Op("not", B, g.Clone()), v(B))),
+					MkProg(term.Op("and", B, term.Op("!=", B, v(I), term.Const(0)), g.Clone())))
+			}
+		}
+	}
 	r.Cov["programs"] = len(progs)
 	hs := harnesses(r.Workers)
 	var compiles, changed, pairs int64
@@ -293,6 +313,19 @@ func c16(r *rep.Run) {
 		if len(names) > 9 {
 			names = append(names[:5], names[len(names)-4:]...) // wide families: first and last names
 		}
+		// other spellings of the operators that occur: pricing a name the
+		// program does not mention must not move anything
+		for _, n := range append([]string{}, names...) {
+			if c, ok := ref.Alias[n]; ok {
+				for a, ca := range ref.Alias {
+					if ca == c && a != n && !nameSet[a] && len(names) < 16 {
+						nameSet[a] = true
+						names = append(names, a)
+					}
+				}
+			}
+		}
+		sort.Strings(names[len(names)-min2(len(names), 6):])
 		names = append(names, "variable", "operator")
 		for _, other := range []drive.Opt{{}, {CF: true, RN: true, FE: true}} {
 			c := &c16ctx{r: r, h: hs[w], p: p, o: other, n: &compiles}
@@ -356,6 +389,13 @@ func c16(r *rep.Run) {
 	r.Cov["cost_map_pairs"] = pairs
 	r.Add(compiles, compiles+pairs, compiles, compiles, changed)
 	r.Finish()
+}
+
+func min2(a, b int) int {
+	if a < b {
+		return a
+	}
+	return b
 }
 
 func cloneAll(ts []*term.Term) []*term.Term {
